@@ -70,12 +70,17 @@ class Runner:
             r = fn(90)
             if self.prog.get("gen"):
                 r = self.drive(r)
+            if rt2.PENDING[0] is not None:
+                # a decision request was swallowed by the program itself (break / return in a finally block)
+                raise rt2.NeedDecision(*rt2.PENDING[0])
             result = ["return", rt2.enc(r)]
         except rt2.NeedDecision:
             raise
         except rt2.BadScript:
             raise
         except BaseException as ex:
+            if rt2.PENDING[0] is not None:
+                raise rt2.NeedDecision(*rt2.PENDING[0])
             result = ["raise", rt2.enc(ex), ("NameError:" if isinstance(ex, NameError) else "") + type(ex).__name__]
             if type(ex).__name__ == "PteraNameError":
                 try:
@@ -222,8 +227,9 @@ def variants(prog, opts, rng):
             out.append({"mode": "tweak", "sels": [{"focus": prog["decl"]["var2"], "ctx": []}], "supply": 558})
             out.append({"mode": "tweak2", "sels": [{"focus": dv, "ctx": []}, {"focus": prog["decl"]["var2"], "ctx": []}], "supply": 559})
     if "meta" in vs:
-        out.append({"mode": "probe", "sels": [{"focus": m, "ctx": []} for m in
-                                               ("#enter", "#exit", "#value", "#error", "#yield", "#receive")], "meta": True})
+        loopvars = sorted({n for s in I.walk(prog["body"]) if s["s"] == "for" for n in I.target_names(s["t"])})
+        metas = ["#enter", "#exit", "#value", "#error", "#yield", "#receive"] + [f"#loop_{v}" for v in loopvars] + [f"#endloop_{v}" for v in loopvars]
+        out.append({"mode": "meta", "sels": [{"focus": m, "ctx": []} for m in metas]})
     return out
 
 
@@ -277,6 +283,17 @@ def run_variant(runner, var, script):
             with p:
                 rec["log"], rec["result"] = runner.call(mod, fn, script)
             rec["streams"] = [recs]
+        elif var["mode"] == "meta":
+            env = {runner.name: fn}
+            merged = []
+            import contextlib
+            with contextlib.ExitStack() as st:
+                for s in var["sels"]:
+                    p = probing(f"{runner.name} > {s['focus']}", env=env)
+                    p.subscribe(lambda dct, name=s["focus"]: merged.append([name, rt2.enc(dct[name])]))
+                    st.enter_context(p)
+                rec["log"], rec["result"] = runner.call(mod, fn, script)
+            rec["streams"] = [merged]
         elif var["mode"] == "ovprobe":
             env = {runner.name: fn}
             p = probing(sel_text(runner.name, var["sels"][0]), env=env, overridable=True)
@@ -316,6 +333,18 @@ def run_variant(runner, var, script):
     return rec
 
 
+def norm_ir(x):
+    """IR for TLC: no nulls (None -> ""), import statements get the bound first component"""
+    if isinstance(x, dict):
+        y = {k: ({"e": "none"} if v is None and k in ("e", "x") else norm_ir(v)) for k, v in x.items()}
+        if y.get("s") == "import":
+            y["first"] = y["mod"].split(".")[0]
+        return y
+    if isinstance(x, list):
+        return [norm_ir(v) for v in x]
+    return "" if x is None else x
+
+
 def main():
     job = json.load(open(sys.argv[1]))
     opts = job["opts"]
@@ -341,6 +370,7 @@ def main():
                 out.append({"id": tid, "pid": prog["id"], "form": prog["form"], "ctx": prog["ctx"], "family": prog["family"],
                             "features": I.features(prog), "names": I.local_names(prog), "gen": bool(prog.get("gen")),
                             "decl": prog.get("decl") or {"var": "", "marker": "", "catches": False},
+                            "prog": norm_ir({"params": prog["params"], "body": prog["body"]}) if opts.get("with_prog") else {},
                             "script": [sval(d) for d in script],
                             "ref": {"log": reflog, "result": refres}, "plain": {"log": plog, "result": pres},
                             "runs": runs})
